@@ -23,6 +23,7 @@ def step (line : String) : String :=
     | "sw" :: rest => DynamicsSW.run rest
     | "inv" :: rest => Invariants.run rest
     | "sym" :: rest => Symmetry.run rest
+    | "scl" :: rest => Scaling.run rest
     | _ => none
   r.getD "bad-op"
 
